@@ -307,6 +307,15 @@ func sgGenFor(prop string) func(seed uint64, idx, total int, tier string) any {
 					}
 				case x < 15 && prop == "C03":
 					ops = append(ops, sgOp{Kind: "deliver", Peer: p, A: r.Intn(3), S: vfPick(r, sgTamperClasses)})
+				case x < 16 && prop == "C01" && r.Bool(0.5):
+					// an answerer that applies a provisional answer, then an answer arrives from either side
+					q := 1 - p
+					ops = append(ops, sgOp{Kind: "createdc", Peer: q}, sgOp{Kind: "offer", Peer: q}, sgOp{Kind: "setlocal", Peer: q, A: -1}, sgOp{Kind: "deliver", Peer: p},
+						sgOp{Kind: "answer", Peer: p}, sgOp{Kind: "setlocal", Peer: p, A: 1})
+					if r.Bool(0.5) {
+						ops = append(ops, sgOp{Kind: "remote-raw", Peer: p, A: 2}) // an answer from the wrong side
+					}
+					ops = append(ops, sgOp{Kind: "setlocal", Peer: p, A: vfPick(r, []int{1, 2, 2})})
 				case x < 17 && prop != "C02":
 					// an offerer receiving provisional answers, then more of them / the final answer
 					ops = append(ops, sgOp{Kind: "createdc", Peer: p}, sgOp{Kind: "offer", Peer: p}, sgOp{Kind: "setlocal", Peer: p, A: -1}, sgOp{Kind: "foreign-answer", Peer: p, A: r.Intn(8), B: 1})
@@ -433,7 +442,7 @@ func sgGenFor(prop string) func(seed uint64, idx, total int, tier string) any {
 				case x < 16:
 					flavor := ""
 					if prop == "C07" || prop == "C06" || prop == "C09" {
-						flavor = vfPick(r, []string{"", "", "text", "nodir", "twoapp"})
+						flavor = vfPick(r, []string{"", "", "text", "nodir", "twoapp", "namedapp"})
 					}
 					ops = append(ops, sgOp{Kind: "foreign-offer", Peer: p, A: r.Intn(8), S: flavor})
 					if r.Bool(0.35) { // the application reacts to the offer before answering
